@@ -204,6 +204,7 @@ func (h *harness) run() {
 	}
 	h.coroSection(string(snapText))
 	lap("coroutine frames")
+	h.partitionSection(stdStructs)
 	h.probeSection(probes)
 	lap("probes")
 	h.stdObjSection(stdStructs)
@@ -520,6 +521,23 @@ func (h *harness) stdObjSection(structs []cStruct) {
 		if lay[n] != nil {
 			h.r.Nontrivial("stdobj:" + n)
 		}
+	}
+}
+
+// partitionSection: the f_* members of private_impl / private_data of every struct of the
+// regenerated C against the field partition of the parsed AST (Gen/C09_StdFields.lean).
+func (h *harness) partitionSection(structs []cStruct) {
+	sorted := append([]cStruct(nil), structs...)
+	sort.Slice(sorted, func(i, j int) bool { return sorted[i].name < sorted[j].name })
+	join := func(l []string) string {
+		if len(l) == 0 {
+			return "-"
+		}
+		return strings.Join(l, ",")
+	}
+	for _, s := range sorted {
+		h.r.Op(fmt.Sprintf("partition %s impl=%s data=%s", s.name, join(s.implF), join(s.dataF)), "ok")
+		h.r.Count("partition:structs")
 	}
 }
 
@@ -860,6 +878,12 @@ func runGen(r *hlib.Run) {
 	b.WriteString("]\n\nend WuffsVerif.Gen.C09\n")
 	r.WriteGen("C09_JpegTables.lean", b.String())
 	r.WriteGen("C09_StdChoose.lean", genStdChoose(r.Repo))
+	fields, err := genStdFields(r.Repo)
+	if err != nil {
+		fmt.Fprintln(os.Stderr, "std field partition:", err)
+		os.Exit(1)
+	}
+	r.WriteGen("C09_StdFields.lean", fields)
 }
 
 var (
